@@ -55,6 +55,22 @@ for f in ("f64", "f32"):
         domain=f"all finite {f} values (full range)", inst=f, est_s=5, cap_s=300)
 
 
+# --------------------------------------------------------------------------------------- L-CF (D-FLAGS)
+FLAGS = "complete flag space: operation x operand tags x (S,C) world x predecessor kind/verticality x stale state; geometry concrete"
+CF = dict(file="boolean/h_cf.rs", lemma="L-CF", domain=FLAGS, inst="f64", est_s=60, cap_s=1200, mem_gb=20, unwind=3)
+reg("cf_base", props={"C14": "quick", "C01": "quick"}, claim="compute_fields without predecessor: flags (false,true), no lower result edge, selection = op(below) vs op(above)", **CF)
+for nm, txt in (("same_nonvert", "same operand, non-vertical predecessor"), ("diff_nonvert", "other operand, non-vertical predecessor"),
+                ("same_vert", "same operand, vertical predecessor (KF1 region)"), ("diff_vert", "other operand, vertical predecessor")):
+    reg(f"cf_step_{nm}", props={"C14": "quick", "C01": "quick", "C02": "quick"},
+        claim=f"compute_fields inductive step, {txt}: Inv(prev) => Inv(event), selection and transition equal the Boolean function, prev_in_result rule", **CF)
+for nm, tier in (("nonvert_pp0", "quick"), ("nonvert_pp1", "quick"), ("nonvert_pp2", "quick"), ("vert_pp0", "quick"), ("vert_pp1", "quick"),
+                 ("nonvert_pp1_older", "thorough"), ("vert_pp1_older", "thorough")):
+    reg(f"cf_twins_{nm}", props={"C14": tier, "C01": tier, "C02": tier},
+        claim=f"coincident pair ({nm}: pair verticality, predecessor kind 0 none/1 non-vertical/2 vertical, insertion order): lower/upper twin flags, "
+              "typing, exactly one twin in result with the direction of the combined change, Inv(upper twin) for the successor", **CF)
+reg("cf_relational", props={"C05": "quick"}, claim="the four selection tables related on one flag state: xor = union (+) intersection, difference = union on subject / intersection on clipping edges, shared-edge subsets, directions", **CF)
+reg("cf_selfop_symmetry", props={"C06": "quick"}, claim="pair level: A op A keeps (intersection/union) or drops (difference/xor) every shared edge; commutative operations are symmetric in the operand tags", **CF)
+
 # --------------------------------------------------------------------------------------- tables
 PROP_BOUNDS = {}
 PROP_OUTSIDE = {}
